@@ -195,6 +195,39 @@ fn finals(events: &[(Event, Option<Sample>)], ended: &Ended, fin: &Snapshot) -> 
             kind: match ended { Ended::Returned => "return", e => e.kind() }, code: ended.code() }
 }
 
+/// Run one session on a fresh thread under a wall-clock watchdog.  A session whose thread does not come back within
+/// VERIF_WATCHDOG seconds (default 120; sessions take milliseconds) is reported as one `hang` event - the code under
+/// test is spinning somewhere the step budget does not reach - and its thread is left behind.
+pub fn run_session_watched(sess: Session) -> Vec<Value> {
+    static HUNG_BEFORE: std::sync::atomic::AtomicBool = std::sync::atomic::AtomicBool::new(false);
+    let mut secs: u64 = std::env::var("VERIF_WATCHDOG").ok().and_then(|v| v.parse().ok()).unwrap_or(120);
+    if HUNG_BEFORE.load(std::sync::atomic::Ordering::SeqCst) {
+        // one hang is already on record for this run: do not wait as long for the next ones
+        secs = secs.min(15);
+    }
+    let id = sess.id.clone();
+    let script: Vec<String> = sess.script.as_ref().map(|s| s.iter().map(|c| c.text.clone()).collect()).unwrap_or_default();
+    let src = match &sess.program {
+        Program::Asm { src, .. } => src.clone(),
+        Program::Raw(w) => format!("{:?}", w),
+    };
+    let (tx, rx) = std::sync::mpsc::channel();
+    std::thread::Builder::new()
+        .stack_size(16 << 20)
+        .spawn(move || {
+            let _ = tx.send(run_session(&sess));
+        })
+        .expect("spawn");
+    match rx.recv_timeout(std::time::Duration::from_secs(secs)) {
+        Ok(events) => events,
+        Err(std::sync::mpsc::RecvTimeoutError::Timeout) => {
+            HUNG_BEFORE.store(true, std::sync::atomic::Ordering::SeqCst);
+            vec![json!({"ev": "hang", "id": id, "secs": secs, "script": script, "src": src})]
+        }
+        Err(_) => panic!("harness thread itself must not panic"),
+    }
+}
+
 /// Run one session on the current (fresh) thread and return its trace events.
 pub fn run_session(sess: &Session) -> Vec<Value> {
     lace::features::init(if sess.stack { "stack".parse().unwrap() } else { "".parse().unwrap() });
